@@ -289,6 +289,10 @@ impl BlockManager {
         metrics
             .storage_block_engine_block_reclaiming
             .absolute(state.reclaiming_blocks.len() as _);
+
+        // The device may be recovered without any clean block (e.g. after a crash). Nothing else triggers a reclaim
+        // before a writer has obtained a clean block, so start reclaiming here or the writers wait forever.
+        self.reclaim_if_needed(&mut state);
     }
 
     pub fn blocks(&self) -> usize {
